@@ -3050,3 +3050,250 @@ def str_hash(m, mt, args, tys, dty):
 def int_hash(m, mt, args, tys, dty):
     deref(args[1]).append([('int:' + mt.group(1), deref(args[0]))])
     return UNIT()
+
+
+@summary(r'<&?%s as (?:std::ops::)?(Shl|Shr)<&?(%s)>>::(shl|shr)' % (BIG, INT))
+def big_shift(m, mt, args, tys, dty):
+    x, k = deref(args[0]), deref(args[1])
+    k = m.concretize(k) if is_sym(k) else k
+    if mt.group(1) == 'Shl':
+        return x * 2 ** k
+    if not is_sym(x):
+        return x >> k
+    q, r = m.fresh('bsq'), m.fresh('bsr')
+    m.assume(z3.And(x == q * 2 ** k + r, r >= 0, r < 2 ** k))
+    return q
+
+
+@summary(r'<%s as (?:std::ops::)?(ShlAssign|ShrAssign)<&?(%s)>>::(shl_assign|shr_assign)' % (BIG, INT))
+def big_shift_assign(m, mt, args, tys, dty):
+    r = args[0]
+    v = big_shift(m, re.match(r'.*(Shl|Shr).*', 'Shl' if mt.group(1) == 'ShlAssign' else 'Shr'), [r.get(), args[1]], tys, dty) if False else None
+    x, k = r.get(), deref(args[1])
+    k = m.concretize(k) if is_sym(k) else k
+    if mt.group(1) == 'ShlAssign':
+        r.set(x * 2 ** k)
+    else:
+        if not is_sym(x):
+            r.set(x >> k)
+        else:
+            q, rem = m.fresh('bsq'), m.fresh('bsr')
+            m.assume(z3.And(x == q * 2 ** k + rem, rem >= 0, rem < 2 ** k))
+            r.set(q)
+    return UNIT()
+
+
+
+# ---- more iterator adaptors
+class MapV:
+    def __init__(self, inner, f):
+        self.inner, self.f = inner, f
+
+
+class SkipV:
+    def __init__(self, inner, n):
+        self.inner, self.n = inner, n
+
+
+class TakeV:
+    def __init__(self, inner, n):
+        self.inner, self.n = inner, n
+
+
+class EnumerateV:
+    def __init__(self, inner):
+        self.inner, self.i = inner, 0
+
+
+class ChainV:
+    def __init__(self, a, b):
+        self.a, self.b = a, b
+
+
+class FilterV:
+    def __init__(self, inner, f):
+        self.inner, self.f = inner, f
+
+
+_it_next_base = it_next
+
+
+def it_next(m, it):
+    v = deref(it)
+    if isinstance(v, MapV):
+        e = it_next(m, v.inner)
+        return None if e is None else call_callable(m, Ref([v.f], 0), [e], '?')
+    if isinstance(v, SkipV):
+        while v.n > 0:
+            v.n -= 1
+            if it_next(m, v.inner) is None:
+                return None
+        return it_next(m, v.inner)
+    if isinstance(v, TakeV):
+        if v.n <= 0:
+            return None
+        v.n -= 1
+        return it_next(m, v.inner)
+    if isinstance(v, EnumerateV):
+        e = it_next(m, v.inner)
+        if e is None:
+            return None
+        v.i += 1
+        return Agg('tuple', '()', [v.i - 1, e])
+    if isinstance(v, ChainV):
+        e = it_next(m, v.a)
+        return e if e is not None else it_next(m, v.b)
+    if isinstance(v, FilterV):
+        while True:
+            e = it_next(m, v.inner)
+            if e is None:
+                return None
+            if m.branch_bool(call_callable(m, Ref([v.f], 0), [Ref([e], 0)], 'bool')):
+                return e
+    if isinstance(v, IterV) and False:
+        pass
+    return _it_next_base(m, it)
+
+
+import sys as _sys
+_sys.modules[__name__].it_next = it_next
+
+
+@summary(r'<.* as Iterator>::by_ref')
+def iter_by_ref(m, mt, args, tys, dty):
+    return args[0]
+
+
+@summary(r'<.* as Iterator>::map::<.*>')
+def iter_map(m, mt, args, tys, dty):
+    return MapV(args[0], args[1])
+
+
+@summary(r'<.* as Iterator>::skip')
+def iter_skip(m, mt, args, tys, dty):
+    return SkipV(args[0], m.concretize(args[1]))
+
+
+@summary(r'<.* as Iterator>::take')
+def iter_take(m, mt, args, tys, dty):
+    v = args[0]
+    if isinstance(v, Agg) and v.name == 'Repeat':
+        return Agg('struct', 'Take', [v.fields[0], args[1]])
+    return TakeV(v, m.concretize(args[1]))
+
+
+@summary(r'<.* as Iterator>::enumerate')
+def iter_enumerate(m, mt, args, tys, dty):
+    return EnumerateV(args[0])
+
+
+@summary(r'<.* as Iterator>::chain::<.*>')
+def iter_chain(m, mt, args, tys, dty):
+    return ChainV(args[0], args[1])
+
+
+@summary(r'<.* as Iterator>::filter::<.*>')
+def iter_filter(m, mt, args, tys, dty):
+    return FilterV(args[0], args[1])
+
+
+@summary(r'<.* as Iterator>::rev')
+def iter_rev_generic(m, mt, args, tys, dty):
+    it = args[0]
+    if isinstance(it, IterV):
+        it.rev = not it.rev
+        return it
+    raise Unsupported('rev on %r' % (it,))
+
+
+@summary(r'<.* as Iterator>::(last|nth)')
+def iter_last_nth(m, mt, args, tys, dty):
+    if mt.group(1) == 'nth':
+        n = m.concretize(args[1])
+        e = None
+        for _ in range(n + 1):
+            e = it_next(m, args[0])
+            if e is None:
+                return NONE()
+        return some(e)
+    last = None
+    while True:
+        e = it_next(m, args[0])
+        if e is None:
+            return NONE() if last is None else some(last)
+        last = e
+
+
+@summary(r'<.* as Iterator>::collect::<(?:std::vec::)?Vec<.*>>')
+def iter_collect_vec(m, mt, args, tys, dty):
+    out = []
+    while True:
+        e = it_next(m, args[0])
+        if e is None:
+            return VecV(out)
+        out.append(e)
+
+
+@summary(r'<.* as Iterator>::collect::<(?:std::string::)?String>')
+def iter_collect_string(m, mt, args, tys, dty):
+    out = []
+    while True:
+        e = it_next(m, args[0])
+        if e is None:
+            return StrV(out)
+        out.append(deref(e) if isinstance(e, Ref) else (ord(e) if isinstance(e, str) else e))
+
+
+@summary(r'<.* as Iterator>::sum::<(%s)>' % INT)
+def iter_sum_int(m, mt, args, tys, dty):
+    tot = 0
+    while True:
+        e = it_next(m, args[0])
+        if e is None:
+            return tot
+        tot = tot + (deref(e) if isinstance(e, Ref) else e)
+
+
+@summary(r'<.* as (?:ExactSizeIterator|Iterator)>::(len|size_hint)')
+def iter_len(m, mt, args, tys, dty):
+    v = deref(args[0])
+    if isinstance(v, IterV) and mt.group(1) == 'len':
+        return v.back - v.front
+    raise Unsupported('iterator len')
+
+
+@summary(r'<.* as DoubleEndedIterator>::next_back')
+def iter_next_back(m, mt, args, tys, dty):
+    v = deref(args[0])
+    if isinstance(v, IterV):
+        v.rev = not v.rev
+        e = iter_next(v)
+        v.rev = not v.rev
+        return NONE() if e is None else some(e)
+    raise Unsupported('next_back')
+
+
+# ---- Cow
+@summary(r'(?:std::borrow::)?Cow::<.*>::to_mut')
+def cow_to_mut(m, mt, args, tys, dty):
+    c = deref(args[0])
+    if c.variant == 'Borrowed':
+        val = copy_val(deref(c.fields[0]))
+        c.variant = 'Owned'
+        c.fields[:] = [val]
+    return Ref(c.fields, 0)
+
+
+@summary(r'<(?:std::borrow::)?Cow<.*> as Deref>::deref|<(?:std::borrow::)?Cow<.*> as AsRef<.*>>::as_ref')
+def cow_deref(m, mt, args, tys, dty):
+    c = deref(args[0])
+    if c.variant == 'Borrowed':
+        r = c.fields[0]
+        return r if isinstance(r, Ref) else Ref(c.fields, 0)
+    return Ref(c.fields, 0)
+
+
+@summary(r'(?:std::borrow::)?Cow::<.*>::into_owned')
+def cow_into_owned(m, mt, args, tys, dty):
+    c = args[0]
+    return copy_val(deref(c.fields[0])) if c.variant == 'Borrowed' else c.fields[0]
